@@ -16,6 +16,7 @@ MODPATH = "b::h::"
 # must stay LAST on the command line: everything after --cbmc-args goes to CBMC.  Leaks are decided by CBMC itself
 # ("dynamically allocated memory never freed" at harness exit), not by allocator stubs (see assemble.py).
 LEAK_ARGS = ["--cbmc-args", "--memory-leak-check"]
+STUBBED = {"alloc::string::String::from_utf8"}
 
 
 def kani_version():
@@ -154,7 +155,8 @@ def alias_lint(slot, names):
             if m:
                 cur = m.group(1)
                 continue
-            if cur and not re.match(r"^<?(b|verif_host)::|^__CPROVER", cur):
+            # functions replaced through #[kani::stub] keep their own name but have the harness's body
+            if cur and cur not in STUBBED and not re.match(r"^<?(b|verif_host)::|^__CPROVER", cur):
                 for sym in re.findall(r"_RNv\w*?15rustgen_harness\w+", line):
                     if sym in statics:
                         bad[(cur, sym)] = 1
